@@ -306,7 +306,7 @@ def merge_stats(dicts):
 
 
 def save_replay(prop, payload):
-    d = os.path.join(VERIF, "replays", prop)
+    d = os.path.join(replay_dir(), prop)
     os.makedirs(d, exist_ok=True)
     payload = dict(payload)
     payload["property"] = prop
@@ -318,8 +318,23 @@ def save_replay(prop, payload):
     return p
 
 
+def evidence_dir():
+    """/verif/evidence, or NV_EVIDENCE_DIR when a scratch copy of the repository is being checked (tools/seedtest.py)"""
+    return os.environ.get("NV_EVIDENCE_DIR") or os.path.join(VERIF, "evidence")
+
+
+def replay_dir():
+    return os.environ.get("NV_REPLAY_DIR") or os.path.join(VERIF, "replays")
+
+
+def repo_re():
+    """regex alternative matching the source root in sanitizer reports (the tree the binaries were built from)"""
+    import re
+    return "(?:%s)" % "|".join(sorted(set(["/repo", re.escape(nvbuild.repo_dir())])))
+
+
 def write_evidence(prop, tier, seed, merged, rule, wall, extra=None, assumptions=None, nviol=0):
-    os.makedirs(os.path.join(VERIF, "evidence"), exist_ok=True)
+    os.makedirs(evidence_dir(), exist_ok=True)
     cov = dict(evaluations=int(merged["evaluations"]),
                distinct_nontrivial=len(merged["nontrivial"]),
                rule=rule,
@@ -334,7 +349,7 @@ def write_evidence(prop, tier, seed, merged, rule, wall, extra=None, assumptions
         cov.update(extra)
     ev = dict(property_id=prop, tier=tier, seed=int(seed), level="exploration", coverage=cov,
               assumptions=assumptions or [], wall_s=round(wall, 2), violations=int(nviol))
-    p = os.path.join(VERIF, "evidence", prop + ".json")
+    p = os.path.join(evidence_dir(), prop + ".json")
     tmp = p + ".tmp"
     with open(tmp, "w") as f:
         json.dump(ev, f, indent=1, sort_keys=True)
